@@ -97,6 +97,24 @@ def stream_reads(ctx, built):
                             r2 = SyndiffixBlobReader("b", d); out2 = r2.read(list(before), target_column=target)
                         if not out.reset_index(drop=True).equals(out2.reset_index(drop=True)):
                             ctx.oracle_fail(f"a freshly opened reader returns a different table for {before} (target {target})", case, "not-repeatable")
+                # the same column set asked several times of one reader with different targets: each answer must be the freshly opened reader's
+                unstored = [q for q in reqs if len(q) >= 3 and tuple(sorted(q)) not in reader.catalog.keys()]
+                for sub in unstored[:ctx.scale(2, 4)]:
+                    seq = [None, sub[0], sub[-1], None, sub[1]]
+                    for target in seq[:ctx.scale(3, 5)]:
+                        case = {"columns": allc, "kinds": kinds, "request": sub, "target": target, "history": "same columns read before on this reader with other targets"}
+                        try:
+                            with BS.quiet():
+                                out = reader.read(list(sub), target_column=target)
+                                out2 = SyndiffixBlobReader("b", d).read(list(sub), target_column=target)
+                        except Exception as e:
+                            ctx.oracle_fail(f"read({sub}, target={target}) raised {type(e).__name__}: {str(e)[:120]}", case, "read-raises"); break
+                        St.count((bi, tuple(sub), target, "repeat"), True, case, tag="repeat-targets")
+                        if list(out.columns) != sub:
+                            ctx.oracle_fail(f"read({sub}) returned columns {list(out.columns)}", case, "columns")
+                        elif not out.reset_index(drop=True).equals(out2.reset_index(drop=True)):
+                            ctx.oracle_fail(f"a freshly opened reader returns a different table for {sub} (target {target}) than a reader that served the same columns "
+                                            f"with other targets before", case, "not-repeatable")
             finally:
                 shutil.rmtree(d, ignore_errors=True)
     finally:
